@@ -151,6 +151,11 @@ FIXED += [
   'ResolveRelativeSource(registry source, "./a?b") produced a registry address whose printed form "…//a?b" is not a registry address and does not parse'),
 ]
 
+FIXED += [
+ ("C05", "entry-name-leaves-archive-root", "fix: content of a directory dereferenced inside a dereferenced directory gets the right names",
+  'with dereferencing on, "src/l -> ../ext1" and "ext1/dir/e -> ../../ext2" packed ext2/f under the entry name "../ext1/dir/e/f", a slug that Unpack refuses'),
+]
+
 OPEN = [
  # (property, key, what fails)
  ("C06", "edge-whitespace",
